@@ -91,7 +91,7 @@ class Norm:
         k = s.k
         if k == "ref":
             return self.norm(self.defs[s.opt("name")], d)
-        if k in ("ann", "newtype", "undef"):
+        if k in ("ann", "newtype", "undef", "sub"):
             return self.norm(s.a[0], d)
         if k in ("int", "float", "str", "bool", "none"):
             return self.prim(k, d)
